@@ -160,3 +160,81 @@ def c12_wrap_ignores_marks(f, replay):
         if not inner.allows_marks(rng_.parent.child(i).marks):
             return True
     return False
+
+
+def c18_fitter_splits_isolating(f, replay):
+    """C18 open finding: replace / replace_range / replace_with / insert / replace_range_with of content that cannot be
+    placed inside the isolating node (e.g. a closed table cell pasted inside a cell, a table inserted inside a table):
+    the Fitter closes the isolating node, places the content after it and re-opens a copy for the rest — the node is
+    *split* (cell(a|b) + cell(Q) -> cell(a), cell(Q), cell(b)).  Same in upstream prosemirror-transform (the frontier is
+    closed without looking at `isolating`).  Class — decided from the replay's data alone: every emitted step starts
+    inside the node's content and ends inside it or runs on over closing tokens only (re-created by its slice), and every
+    old token outside the node survives, in order, around an intact copy of the node (tokens were only added after the
+    node's content; nothing outside was removed or rewritten and nothing was put before the node)."""
+    return (replay.get("kind") == "escaped" and replay.get("steps_inside") is True and replay.get("survives_in_order") is True)
+
+
+def c18_insert_point_outside(f, replay):
+    """C18 open finding: replace_range_with(p, p, node) with an empty range asks insert_point for the nearest place the
+    node fits; insert_point walks up through ancestors without stopping at isolating ones, so a node that does not fit
+    inside (e.g. a table row given a position inside a cell) is inserted outside the isolating node.  Same in upstream.
+    Class: operation replace_range_with with from == to, one emitted step that is a pure insertion (from == to, no gap)
+    at a position outside the node's content, and every old token survives in order around the intact node."""
+    args = replay.get("args") or []
+    return (replay.get("kind") == "escaped" and replay.get("op") == "replace_range_with" and len(args) >= 2 and args[0] == args[1]
+            and replay.get("pure_insert_outside") is True and replay.get("survives_in_order") is True)
+
+
+def _leafish(replay, type_name):
+    """is `type_name` a leaf type under the replay's schema (family schema by name, else the attached spec)"""
+    leaf = _leaf_type(replay.get("schema"), type_name)
+    if leaf is not None:
+        return leaf
+    spec = (replay.get("schema_spec") or {}).get("nodes") or replay.get("schema_spec_nodes") or {}
+    if type_name in spec:
+        return not spec[type_name].get("content")
+    return False
+
+
+def _jtoks(replay, nodes):
+    """flat tokens of slice-content JSON: 't' per UTF-16 unit of text, 'l' for a leaf, 'op' … 'cl' around other nodes"""
+    out = []
+    for n in nodes or []:
+        if n.get("type") == "text":
+            out += ["t"] * (len(n.get("text", "").encode("utf-16-le")) // 2)
+        elif not n.get("content") and _leafish(replay, n.get("type")):
+            out.append("l")
+        else:
+            out += ["op"] + _jtoks(replay, n.get("content")) + ["cl"]
+    return out
+
+
+def _only_wrappers(toks):
+    """closes then opens, nothing else: no text, and no node that is both opened and closed in this part"""
+    seen_open = False
+    for t in toks:
+        if t in ("t", "l") or (t == "cl" and seen_open):
+            return False
+        seen_open = seen_open or t == "op"
+    return True
+
+
+def c04_structure_inverse(f, replay):
+    """C04 open finding (generalises C04-leaf-retype): a replace-around step with the `structure` flag whose slice carries,
+    before or after the insertion point, more than wrapper tokens — text, a leaf, or any node complete within that part —
+    applies (the flag only inspects what the step *deletes*), but its inverse inherits the flag and now has to delete
+    those tokens, which `content_between` counts as content: the inverse refuses with 'Structure gap-replace would
+    overwrite content'.  Same in upstream (ReplaceAroundStep.invert passes `structure` on).  No Transform operation of
+    the library emits such a step except set_node_markup to a leaf type (C04-leaf-retype).
+    Class: the failing step is a replace-around step with structure = true; the part of its slice before the insertion
+    point or the part after it is not closes-then-opens only; the inverse failed with that message."""
+    st = replay.get("step") or {}
+    if st.get("stepType") != "replaceAround" or not st.get("structure"):
+        return False
+    if "overwrite content" not in str(replay.get("detail")) and "overrite content" not in str(replay.get("detail")):
+        return False
+    sl = st.get("slice") or {}
+    toks = _jtoks(replay, sl.get("content"))
+    toks = toks[sl.get("openStart", 0):len(toks) - sl.get("openEnd", 0)]
+    ins = st.get("insert", 0)
+    return not (_only_wrappers(toks[:ins]) and _only_wrappers(toks[ins:]))
